@@ -36,6 +36,23 @@ def run(res, replay=None):
     cfgs = c01.configs_for(res.tier)
     res.extra["configurations"] = ["%s -std=%s" % (c[0], c[1]) for c in cfgs]
     cases = prepare_many(res.seed + 1700, nschemas, cfgs)
+    # identifying values beyond 32 bits in 64-bit header members (version_t and block_length_t are 64 bit, schema and
+    # template ids 32 bit): schema version, explicit message and group block lengths, ids at 2^32-1
+    ws = Schema("hs_wide", big_endian=False, sid=2 ** 32 - 1, version=20240926001)
+    ws.add(TypeDef("messageHeader", "composite", members=[TypeDef("blockLength", "type", prim="uint64"), TypeDef("templateId", "type", prim="uint32"),
+                                                          TypeDef("schemaId", "type", prim="uint32"), TypeDef("version", "type", prim="uint64")]))
+    ws.add(TypeDef("wideDim", "composite", members=[TypeDef("blockLength", "type", prim="uint64"), TypeDef("numInGroup", "type", prim="uint16")]))
+    wm3 = Message("W3", 3, block_length=2 ** 32 + 24)     # fill_message_header only: its groups would lie 4 GiB away
+    wm3.fields.append(Field("a", 1, "uint32"))
+    ws.messages.append(wm3)
+    wm = Message("W", 2 ** 32 - 1)
+    wm.fields.append(Field("a", 1, "uint32"))
+    wg = Group("wide", 10, "wideDim", block_length=2 ** 32 + 8); wg.fields.append(Field("x", 1, "uint16")); wm.groups.append(wg)
+    ws.messages.append(wm)
+    wm2 = Message("W2", 70000)
+    wm2.fields.append(Field("a", 1, "uint8"))
+    ws.messages.append(wm2)
+    cases.append(prepare_fixed(ws, cfgs))
     hdr_stats = {"ref_members": 0, "custom_offsets": 0, "counters": 0, "extra": 0}
     for ci, mc in enumerate(cases):
         if mc.error:
